@@ -26,4 +26,10 @@ def selectCoding (m : Method) (hs : Headers) : Coding :=
   else if haveEncoding hs (str "deflate") then .deflate
   else .plain
 
+/-- `parse_response`: nothing is decoded for a response that has no body (HEAD, 1xx, 204, 304) — a
+    `304` that announces `Content-Encoding: gzip` still has an empty body, not a broken gzip stream
+    (fix F21); otherwise `CompressedReader::new` decides. -/
+def codingFor (bodyless : Bool) (m : Method) (hs : Headers) : Coding :=
+  if bodyless then .plain else selectCoding m hs
+
 end Atto
